@@ -465,7 +465,7 @@ def glue_contextlib() -> None:
                 arg = format_funcname(callback)
 
             child_context = Context(
-                obj=manager or callback,
+                obj=manager if manager is not None else callback,
                 is_async=not is_sync,
                 varname=f"{stackname}[{idx}]",
                 start_line=context.start_line,
